@@ -32,11 +32,12 @@ def _tdiv(a, b):
 
 
 class Model:
-    def __init__(self, f, ty="i32", callees=None):
+    def __init__(self, f, ty="i32", callees=None, consts=None):
         """`ty`: the integer type the function computes in (used for overflow / wrapping)."""
         self.f = f
         self.ty = ty
         self.callees = callees or {}
+        self.consts = consts or {}          # last path segment of a named (generic) constant -> value
         rets = {i for i, b in enumerate(f.blocks) if f.live(i) and b["t"]["k"] == "return"}
         self.paths = []
         for t, atoms, env in enum_paths(f, 0, rets, want_env=True, resolve_atoms=True):
@@ -59,6 +60,8 @@ class Model:
             if isinstance(e[1], int):
                 return e[1]
             raise Shape("constant %r" % (e[1],))
+        if k == "kc" and last_seg(e[1]) in self.consts:
+            return self.consts[last_seg(e[1])]
         if k == "kc" and isinstance(e[2], int):
             return e[2]
         if k == "cast":
@@ -118,10 +121,10 @@ class Model:
                 lo, hi = INT_RANGE[self.ty]
                 v = -self.ev(e[2][0], args)
                 return v if v <= hi else lo
-            if n in ("wrapping_add", "wrapping_sub") and len(e[2]) == 2:
+            if n in ("wrapping_add", "wrapping_sub", "wrapping_mul") and len(e[2]) == 2:
                 lo, hi = INT_RANGE[self.ty]
                 a, b = self.ev(e[2][0], args), self.ev(e[2][1], args)
-                v = a + b if n == "wrapping_add" else a - b
+                v = {"wrapping_add": a + b, "wrapping_sub": a - b, "wrapping_mul": a * b}[n]
                 return (v - lo) % (hi - lo + 1) + lo
             if n == "leading_zeros" and len(e[2]) == 1:
                 v = self.ev(e[2][0], args)
